@@ -123,6 +123,7 @@ def run(ctx):
     ctx.guard('ageing_and_disease_pars', ageing_and_disease_pars, ctx, ss)
     ctx.guard('module_own_step', module_own_step, ctx, ss)
     ctx.guard('sexual_network_beta', sexual_network_beta, ctx, ss)
+    ctx.guard('durations_on_own_step', durations_on_own_step, ctx, ss)
     ctx.guard('routine_delivery', routine_delivery, ctx, ss)
     ctx.guard('mixing_pools', mixing_pools, ctx, ss)
 
@@ -209,6 +210,27 @@ def module_own_step(ctx, ss):
         br = sim.demographics[1].pars.birth_rate
         if getattr(br, 'values', None) is not None and abs(float(br.values) - 30 * float(sim.demographics[1].t.dt)) > 1e-9:
             ctx.violation(f'births.birth_rate (30 per year) with dt={float(sim.demographics[1].t.dt)} in a sim with dt={sim_dt}: per-step value {float(br.values)}, rate x dt = {30 * float(sim.demographics[1].t.dt)}', dict(W, module='births', par='birth_rate'))
+
+
+def durations_on_own_step(ctx, ss):
+    """An infection of fixed duration D years ends D years after it began, whatever the step of the disease module and of the sim."""
+    for cls in ('SIR', 'SIS'):
+        for sim_dt, dis_kw in ((1.0, dict(dt=0.5)), (1.0, dict(dt=2.0)), (0.5, dict(dt=1.0)), (1.0, dict(unit='month', dt=1.0)), (1.0, {})):
+            W = dict(probe='duration-on-own-step', disease=cls, sim_dt=sim_dt, module=dis_kw)
+            kw = dict(beta=0.0, init_prev=1.0, dur_inf=ss.constant(v=ss.dur(4, 'year')))
+            if cls == 'SIR': kw['p_death'] = 0.0
+            try:
+                dis = getattr(ss, cls)(**kw, **dis_kw)
+                sim = ss.Sim(n_agents=40, dt=sim_dt, dur=12, diseases=dis, networks=ss.RandomNet(), verbose=0); sim.run()
+            except Exception as E:
+                ctx.dist('duration-on-own-step rejected'); continue
+            d = sim.diseases[0]; ninf = np.asarray(d.results.n_infected, dtype=float); years = np.asarray(d.t.yearvec, dtype=float) - float(d.t.yearvec[0])
+            ctx.count(('dur-own-step', cls, sim_dt, repr(dis_kw)), nontrivial=True); ctx.dist('fixed duration on own step')
+            cleared = years[ninf == 0]
+            got = float(cleared[0]) if len(cleared) else None
+            step = float(years[1] - years[0]) if len(years) > 1 else 1.0
+            if got is None or not (4.0 - 1e-9 <= got <= 4.0 + step + 1e-9):
+                ctx.violation(f'{cls}({dis_kw}) in a sim with dt={sim_dt}: everyone is infected at the start for a fixed 4 years; the module reports no infected agents from year {got} on (its step is {step:.4f} years)', W)
 
 
 def sexual_network_beta(ctx, ss):
